@@ -88,6 +88,14 @@ def name_pool(r, tier):
             if base >= 1:
                 names.append("s" * (base - 1) + "\U0001F600" * nsurr + "z")
                 names.append("\U0001F431" * nsurr + "q" * base)
+    # UTF-16 units whose high or low byte looks like padding (0xFF), a terminator (0x00) or a space (0x20),
+    # as the last unit of a set that fills its slots exactly, next to it, and across a slot boundary
+    for ch in ("\uFF21", "\uFF76", "\u00FF", "\uFFFD", "\u0100", "\u20AC", "\u2100"):
+        for units in (12, 13, 14, 26, 39, 255):
+            names.append("e" * (units - 1) + ch)
+            names.append(ch + "f" * (units - 1))
+        names.append("g" * 12 + ch + "h" * 5)
+        names.append("i" * 13 + ch + "j" * 12)
     # alias-collision families
     for i in range(14 if tier == "quick" else 140):
         names.append("collide_family_%04d.data" % i)
